@@ -199,11 +199,11 @@ HARNESSES = [
          timeout=600, unwind=14,
          cases=[dict(id="n%d" % n, defines={"NIDX": n}, tier="quick") for n in range(4)]),
     dict(name="finish_pad", file="finish_pad.c", timeout=900, unwind=4,
-         label="bounded(devblksize = 2^k, k = 0..32)",
+         label="bounded(devblksize = 2^k, k = 1..32)",
          fp={"get_size": "stub_get_size", "write_at": "stub_write_at"},
          cases=[dict(id="blk%d" % (1 << k), defines={"BLK": 1 << k},
                      tier="quick" if k in (10, 12, 16) else "thorough")
-                for k in range(0, 33)] +
+                for k in range(1, 33)] +   # k = 0: the cover points degenerate to constants (vacuity guard)
                # gensquashfs/tar2sqfs accept ANY --devblksz >= 1024, not only
                # powers of two (seed C03-5: `%` replaced by `& (blk - 1)`)
                [dict(id="blk%d_s%d" % (b, sb), defines={"BLK": b, "SIZEBITS": sb},
